@@ -115,6 +115,68 @@ func (x *cbx) rawDigester() {
 	}
 }
 
+// rawDigesterIterations: the mutable iterations look every key up again (OrderedMap.getElementAndNextKey /
+// getNextKey): a failing DigesterBuilder / first-level Digester call there must surface as External.
+func (x *cbx) rawDigesterIterations() {
+	okv := func(atree.Value) (bool, error) { return true, nil }
+	okkv := func(atree.Value, atree.Value) (bool, error) { return true, nil }
+	for _, fl := range []string{"Iterate", "IterateKeys", "IterateValues"} {
+		for _, comp := range []string{"builder", "level"} {
+			for try := 0; try < 6 && !x.stop(); try++ {
+				s := newXStore()
+				fd, fsw := &hx.FailSwitch{}, &hx.FailSwitch{}
+				b := digestTable(fd, fsw)
+				m, err := atree.NewMap(s.rec, hx.MkAddr(2), b, hx.TI(3))
+				for j := uint64(1); j <= 20 && err == nil; j++ {
+					_, err = m.Set(hx.CompareKey, hx.HashInput, tvs(9, 2*j), tvs(12, j))
+				}
+				for k := uint64(100); k < 106 && err == nil; k++ {
+					_, err = m.Set(hx.CompareKey, hx.HashInput, tvs(9, k), tvs(12, k))
+				}
+				if err != nil {
+					x.st.HarnessErr = "digester setup: " + err.Error()
+					return
+				}
+				s.maps = []*atree.OrderedMap{m}
+				s.rec.Reset()
+				before := s.snapshot()
+				at := 1 + x.rng.Intn(20)
+				if comp == "builder" {
+					fd.Arm(at)
+				} else {
+					fsw.Arm(at)
+				}
+				what := fmt.Sprintf("map.%s/digester-%s", fl, comp)
+				err = x.guard(what, func() error {
+					switch fl {
+					case "Iterate":
+						return m.Iterate(hx.CompareKey, hx.HashInput, okkv)
+					case "IterateKeys":
+						return m.IterateKeys(hx.CompareKey, hx.HashInput, okv)
+					}
+					return m.IterateValues(hx.CompareKey, hx.HashInput, okv)
+				})
+				fired := fd.Fired || fsw.Fired
+				fd.Arm(0)
+				fsw.Arm(0)
+				if !fired || err == errPanicked {
+					continue
+				}
+				if comp == "level" && b.FailedAtLevel >= 1 {
+					x.st.Ops++
+					x.st.Hit("observation:digester-error-dropped-in-collision-group")
+					continue
+				}
+				if comp == "level" {
+					what += "0"
+				}
+				x.external(what, err)
+				x.unchanged(what, s, before)
+			}
+		}
+	}
+}
+
 // failingProviders: the bulk builds with a failing element provider, a value / key whose Storable() fails,
 // a failing DigesterBuilder / Digester, each at a random element position.  Category and cause only: a
 // refused bulk build leaves the slabs it had stored (recorded finding batch-build:rejected-build-leaves-slabs).
@@ -217,6 +279,8 @@ var callbackRequiredDigest = []string{
 	"map.Get/digester-level0", "map.Has/digester-level0", "map.Set/digester-level0", "map.Remove/digester-level0",
 	"map.Set/digester-builder-for-resident-key", "map.Set/digester-level-of-resident-key",
 	"observation:digester-error-dropped-in-collision-group",
+	"map.Iterate/digester-builder", "map.IterateKeys/digester-builder", "map.IterateValues/digester-builder",
+	"map.Iterate/digester-level0", "map.IterateKeys/digester-level0", "map.IterateValues/digester-level0",
 	"NewArrayFromBatchData/provider", "NewArrayFromBatchData/value-storable",
 	"NewMapFromBatchData/provider", "NewMapFromBatchData/key-storable", "NewMapFromBatchData/value-storable",
 	"NewMapFromBatchData/digester-builder", "NewMapFromBatchData/digester-level0",
